@@ -58,13 +58,29 @@ def g_case(draw, allow_var=True, max_rows=None):
             alpha = np.clip(r.uniform(-0.2, 1.2, C), 0.0, 1.0)
     c = {"prior": prior, "X": X, "upd": [bool(u) for u in upd], "relevance": rel,
          "alpha": (np.array(alpha, dtype=float) if np.ndim(alpha) else float(alpha)),
-         "starve": bool(starve), "count_floor": gen.choice(draw, [EPS, EPS, 1e-6, 1e-2, 0.3]), "scales": scales}
+         "starve": bool(starve), "count_floor": gen.choice(draw, [EPS, EPS, 1e-6, 1e-2, 0.3]), "scales": scales,
+         # the prior handed over may itself be a MAP-adapted machine (a condition-dependent background model adapted
+         # from a root UBM): the prior is the machine that was handed over, with ITS parameters
+         "prior_is_map": gen.choice(draw, [False, False, True])}
     c["how"] = gen.presentation_for(draw, c)
     return c
 
 
+def prior_of(case):
+    p = case["prior"]
+    if not case.get("prior_is_map"):
+        return sut.make_gmm(p)
+    root = sut.make_gmm(dict(p, means=np.asarray(p["means"]) * 0.5 - np.sqrt(np.asarray(p["variances"])),
+                             variances=np.asarray(p["variances"]) * 2.0, weights=np.asarray(p["weights"])[::-1].copy()))
+    m = sut.GMMMachine(n_gaussians=p["C"], trainer="map", ubm=root)
+    if "floors" in p:
+        m.variance_thresholds = np.array(p["floors"], dtype=float) if np.ndim(p["floors"]) else float(p["floors"])
+    m.means, m.variances, m.weights = np.array(p["means"], float), np.array(p["variances"], float), np.array(p["weights"], float)
+    return m
+
+
 def map_machine(case, cap, prior_machine=None, thr=None):
-    ubm = prior_machine or sut.make_gmm(case["prior"])
+    ubm = prior_machine or prior_of(case)
     g = sut.GMMMachine(
         n_gaussians=case["prior"]["C"],
         trainer="map",
